@@ -55,7 +55,7 @@ func (fs *Filespace) Copy(src, dest string) (err error) {
 		return err
 	}
 	verifhook.Yield("memfs.create.gap")
-	return destDir.addNode(copiedNode)
+	return fs.addNode(destDirPath, destDir, copiedNode)
 }
 
 // CopyDirectory duplicate a directory
@@ -86,7 +86,7 @@ func (fs *Filespace) CopyDirectory(src, dest string) (err error) {
 		return err
 	}
 	verifhook.Yield("memfs.create.gap")
-	return destDir.addNode(copiedDir)
+	return fs.addNode(destDirPath, destDir, copiedDir)
 }
 
 // CopyFile duplicate a file
@@ -117,7 +117,18 @@ func (fs *Filespace) CopyFile(src, dest string) (err error) {
 		return err
 	}
 	verifhook.Yield("memfs.create.gap")
-	return destDir.addNode(copiedFile)
+	return fs.addNode(destDirPath, destDir, copiedFile)
+}
+
+// addNode add the node to dir (the directory at dirPath). When the directory was removed concurrently
+// the path is created again from the root (as if the call was started after the removal).
+func (fs *Filespace) addNode(dirPath []string, dir *Dir, node os.FileInfo) (err error) {
+	for err = dir.addNode(node); err == errDirRemoved; err = dir.addNode(node) {
+		if dir, err = mkdirAllNodes(fs.root, dirPath, filesystem.DefaultUnixDirMode); err != nil {
+			return err
+		}
+	}
+	return err
 }
 
 // ReadDir return directory nodes
@@ -176,6 +187,15 @@ func (fs *Filespace) MkdirAll(destPath string, filemode os.FileMode) (err error)
 
 // Writer return a file node writer
 func (fs *Filespace) Writer(destPath string) (writer filesystem.Writer, err error) {
+	// start again from the root when the directory was removed concurrently
+	for err = errDirRemoved; err == errDirRemoved; {
+		writer, err = fs.writer(destPath)
+	}
+	return writer, err
+}
+
+// writer is a single attempt of Writer
+func (fs *Filespace) writer(destPath string) (writer filesystem.Writer, err error) {
 	var (
 		destDirPath  []string
 		destNodeName string
@@ -236,6 +256,15 @@ func (fs *Filespace) ReadFile(srcPath string) (data []byte, err error) {
 
 // WriteFile write file data
 func (fs *Filespace) WriteFile(destPath string, data []byte, filemode os.FileMode) (err error) {
+	// start again from the root when the directory was removed concurrently
+	for err = errDirRemoved; err == errDirRemoved; {
+		err = fs.writeFile(destPath, data, filemode)
+	}
+	return err
+}
+
+// writeFile is a single attempt of WriteFile
+func (fs *Filespace) writeFile(destPath string, data []byte, filemode os.FileMode) (err error) {
 	var (
 		destDirPath  []string
 		destNodeName string
